@@ -1,9 +1,18 @@
 import Rs1090.Driver.Common
 import Rs1090.Model.Snapshot
 import Rs1090.Model.SnapshotView
+import Rs1090.Model.SnapshotWriters
 import Rs1090.Driver.Pipeline
 namespace Rs1090.Driver.C12
-open Rs1090 Rs1090.Model.Snapshot Rs1090.Model.SnapshotView Rs1090.Driver
+open Rs1090 Rs1090.Model.Snapshot Rs1090.Model.SnapshotView Rs1090.Model.SnapshotWriters Rs1090.Driver
+
+/-- one step of the live table (Model/SnapshotWriters.lean), from frames: `<ts>:<framehex>[:<lat>,<lon>]` =
+    `update_snapshot` on the reception (token of `snapf`), `H<ts>:<framehex>` = `store_history` on it,
+    `X<now>` = one pass of the expiry task at wall-clock second `now` -/
+def parseStep (tok : String) : Option Step :=
+  if tok.startsWith "X" then (tok.drop 1).toString.toNat?.map Step.expire
+  else if tok.startsWith "H" then (parseRx (tok.drop 1).toString).map fun x => Step.history x.record
+  else (parseRx tok).map fun x => Step.record x.record
 
 /-- `snap <record> <record> …` : the table after the history, entries in key order
     (record tokens: Model/Snapshot.lean, "Line protocol").
@@ -14,6 +23,10 @@ open Rs1090 Rs1090.Model.Snapshot Rs1090.Model.SnapshotView Rs1090.Driver
 def handle : List String → Option String
   | "snap" :: recs => (recs.mapM parseRecord).map fun h => showTable (run h)
   | "snapf" :: rxs => (rxs.mapM parseRx).map fun h => showTable (runFrames h)
+  | "snapw" :: m :: items => do
+    let m ← m.toNat?
+    let s ← items.mapM parseStep
+    pure (showTable (runLive m s))
   | ws => Rs1090.Driver.Pipeline.handle ws
 
 end Rs1090.Driver.C12
